@@ -339,6 +339,12 @@ func (rolloutsmEngine) Gen(r *rand.Rand, idx int, tier string) any {
 		if chance(r, 10) {
 			in.BR = nil
 		}
+		// mostly a status that the previous reconcile already brought up to date (counters copied, generation observed):
+		// what this reconcile then leaves untouched is a wait, and has to be somebody else's move (C07)
+		if chance(r, 75) {
+			sub.CReplicas, sub.CReady = br.Updated, br.UpdatedReady
+			st.ObsGen = in.Generation
+		}
 	}
 	return in
 }
